@@ -27,6 +27,13 @@ RD(metric, p, q) ==
 
 DistVec(metric, P, q) == [i \in 1..Len(P) |-> RD(metric, P[i], q)]
 
+\* metrics whose floating-point evaluation is exact on integer points and dyadic radii (sums,
+\* squares, maxima of small integers).  LpDist takes a p-th root: a point on the radius -- or within
+\* a relative 2*10^-5 of it in reduced units, far above the f32 evaluation error of the root and of
+\* the ball tree's sphere bounds, and empty on small lattices -- is not decided by the specification
+\* for those metrics (soundness rules 2 and 3).
+ExactMetric(metric) == metric \in {"l1", "l2", "linf", "lp1"}
+
 \* side of the sphere of radius r8/8 on which a point at reduced distance D lies: -1 in, 0 on, 1 out
 Side(metric, D, r8) ==
   LET lhs == CASE metric \in {"l1", "lp1", "linf"} -> 8 * D
@@ -35,14 +42,21 @@ Side(metric, D, r8) ==
       rhs == CASE metric \in {"l1", "lp1", "linf"} -> r8
                [] metric \in {"l2", "lp2"}         -> r8 * r8
                [] metric = "lp3"                   -> r8 * r8 * r8
-  IN IF lhs < rhs THEN -1 ELSE IF lhs = rhs THEN 0 ELSE 1
-
-\* metrics whose floating-point evaluation is exact on integer points and dyadic radii (sums,
-\* squares, maxima of small integers).  LpDist takes a p-th root: a point exactly on the radius
-\* is not decided by the specification for those (soundness rule 3).
-ExactMetric(metric) == metric \in {"l1", "l2", "linf", "lp1"}
+      tol == IF ExactMetric(metric) THEN 0 ELSE lhs \div 50000
+  IN IF lhs < rhs - tol THEN -1 ELSE IF lhs > rhs + tol THEN 1 ELSE 0
 
 -----------------------------------------------------------------------------
+\* own sorting helpers (Geo!SortSeq clashes by name with TLC!SortSeq when both are extended)
+RECURSIVE AscSort(_)
+AscSort(s) ==
+  IF s = <<>> THEN <<>>
+  ELSE LET m == MinSeq(s)
+           ix == CHOOSE j \in DOMAIN s : s[j] = m
+           rest == [j \in 1..(Len(s) - 1) |-> IF j < ix THEN s[j] ELSE s[j + 1]]
+       IN <<m>> \o AscSort(rest)
+RECURSIVE SeqOfSet(_)
+SeqOfSet(S) == IF S = {} THEN <<>> ELSE LET m == MinSet(S) IN <<m>> \o SeqOfSet(S \ {m})
+
 PosSet(res) == {res.pos[j] : j \in DOMAIN res.pos}
 
 \* every entry is a stored point: its coordinates are those of the row it claims to be,
@@ -55,7 +69,7 @@ WellFormed(P, res) ==
        /\ res.pts[j] = P[res.pos[j] + 1]
   /\ Cardinality(PosSet(res)) = Len(res.pos)
 
-Got(dv, res) == [j \in DOMAIN res.pos |-> dv[res.pos[j] + 1]]
+Got(dv, res) == [j \in 1..Len(res.pos) |-> dv[res.pos[j] + 1]]
 
 \* k-nearest, by the definition: min(k,n) stored points, ascending, and the distances are those of
 \* the min(k,n) smallest of all distances (ties: any of the tied points)
@@ -63,7 +77,7 @@ KnnOkDef(P, dv, k, res) ==
   LET m == Min2(k, Len(P)) IN
   /\ WellFormed(P, res)
   /\ Len(res.pos) = m
-  /\ Got(dv, res) = SubSeq(SortSeq(dv), 1, m)
+  /\ Got(dv, res) = SubSeq(AscSort(dv), 1, m)
 
 \* the same relation without sorting (used on large inputs; NN.tla checks the equivalence)
 KnnOk(P, dv, k, res) ==
@@ -95,4 +109,33 @@ AgreeKey(metric, dv, r8, res) ==
 
 \* malformed builds / queries
 BuildValid(dim, leaf) == dim >= 1 /\ (leaf >= 1 \/ leaf = -1)     \* leaf = -1: default leaf size
+
+-----------------------------------------------------------------------------
+(* Structure of a built ball tree (anchor: "every point of a subtree must lie within radius of     *)
+(* center or pruning becomes unsound").  nd = the nodes in pre-order, each                         *)
+(*   [lf |-> is a leaf, fin |-> centre and radius finite, c |-> centre, r |-> radius (both in      *)
+(*    hundredths, rounded), p |-> positions held by a leaf, l, rt |-> child indices]               *)
+RECURSIVE TreePts(_, _)
+TreePts(nd, i) == IF nd[i].lf THEN nd[i].p ELSE TreePts(nd, nd[i].l) \o TreePts(nd, nd[i].rt)
+
+\* integer point p lies in the ball (centre c, radius r, hundredths); slack = rounding of c and r
+WithinBall(metric, p, c, r) ==
+  LET sp == [d \in 1..Len(p) |-> 100 * p[d]]
+      slack == Len(p) + 1
+  IN /\ Len(c) = Len(p)
+     /\ CASE metric \in {"l1", "lp1"} -> L1(sp, c) <= r + slack
+          [] metric = "linf"          -> Linf(sp, c) <= r + slack
+          [] metric \in {"l2", "lp2"} -> L2sq(sp, c) <= (r + slack) * (r + slack)
+
+TreeOk(P, metric, leaf, nd) ==
+  /\ Len(nd) >= 1
+  \* pre-order: children come later (so the recursion below is well-founded)
+  /\ \A i \in 1..Len(nd) : nd[i].fin /\ (nd[i].lf \/ (nd[i].l \in (i + 1)..Len(nd) /\ nd[i].rt \in (i + 1)..Len(nd)))
+  \* every row of the batch sits in exactly one leaf
+  /\ LET all == TreePts(nd, 1) IN Len(all) = Len(P) /\ Range(all) = 0..(Len(P) - 1)
+  /\ \A i \in 1..Len(nd) :
+       LET sub == TreePts(nd, i) IN
+       /\ \A j \in 1..Len(sub) : WithinBall(metric, P[sub[j] + 1], nd[i].c, nd[i].r)
+       /\ nd[i].lf => Len(nd[i].p) <= leaf /\ (Len(P) > 0 => nd[i].p # <<>>)
+       /\ ~nd[i].lf => TreePts(nd, nd[i].l) # <<>> /\ TreePts(nd, nd[i].rt) # <<>>
 =============================================================================
